@@ -52,7 +52,7 @@ func TestC11(t *testing.T) {
 	} else {
 		t.Fatalf("no SQLITE_BUSY to inject: %v", err)
 	}
-	configs := []string{"memory", "memory-paged", "sqlite-paged", "sqlite-file", "sqlite-mem", "sqlite-batch1", "sqlite-batch2", "sqlite-batch3", "sqlite-batch5", "durable", "durable-chunk400", "durable-strict", "durable-strict-chunk400"}
+	configs := []string{"memory", "memory-paged", "sqlite-paged", "sqlite-file", "sqlite-mem", "sqlite-mem-batch2", "sqlite-batch1", "sqlite-batch2", "sqlite-batch3", "sqlite-batch5", "durable", "durable-chunk400", "durable-strict", "durable-strict-chunk400"}
 	batches := []int{1, 2, 3, 5, 100, 0, -1}
 	maxLen := run.Scale(6, 18)
 	if !run.Thorough() {
